@@ -4,6 +4,9 @@ from typing import Callable
 
 from ._type_qualifier import Port, Generic, TypeQualifier
 from ._bit_vector import BitVector
+from ._signed import Signed
+from ._unsigned import Unsigned
+from ._array import Array
 from ._collect_ast_and_scope import FunctionDefinition, InstantiatedFunction
 from cohdl.utility.source_location import SourceLocation
 from ._intrinsic import _intrinsic, _intrinsic_replacement, _IntrinsicInlineEntity
@@ -305,6 +308,18 @@ class Entity(Block):
                     assert (
                         value.width == port_type.width
                     ), f"width of port '{name}' ({port_type.width}) does not match the width of the connected object ({value.width})"
+
+                    # the port map names the declared object (or a slice of it),
+                    # typed views (.unsigned/.signed/.bitvector) are not converted
+                    root_type = value._root.type
+
+                    if issubclass(root_type, Array):
+                        root_type = root_type.elemtype()
+
+                    for vector_type in (Signed, Unsigned):
+                        assert issubclass(root_type, vector_type) == issubclass(
+                            port_type, vector_type
+                        ), f"port '{name}' of type {port_type} cannot be connected to (a view of) an object declared as {root_type}"
 
                 self._cohdl_port_definitions[name] = value
             elif name in info.generics:
